@@ -634,6 +634,7 @@ pub fn check_family<C: Circuit<F>>(
     unknown: &C,
     knowns: &[Known<C>],
     small_limit: usize,
+    demo: &dyn Fn(usize) -> Option<String>,
 ) -> Option<FamilyOut> {
     let kind = if name.starts_with("zkir:") { "zkir".to_string() } else { name.split('(').next().unwrap_or(name).to_string() };
     // 1. keygen view, with and without the spy
@@ -707,6 +708,7 @@ pub fn check_family<C: Circuit<F>>(
     // 3. every witness class against the keygen view
     let e0 = erased(&s0.evs);
     let mut violated = false;
+    let mut first_demo = true;
     let mut mock0: Option<MockProver<F>> = None;
     let mut vk0: Option<Vec<u8>> = None;
     for (ci, kn) in knowns.iter().enumerate() {
@@ -747,6 +749,9 @@ pub fn check_family<C: Circuit<F>>(
             let (c0, c1) = (cells(&e0), cells(&s.evs));
             let only_w: Vec<String> = c1.difference(&c0).take(16).map(|(c, r)| format!("a{c}@{r}")).collect();
             let only_k: Vec<String> = c0.difference(&c1).take(16).map(|(c, r)| format!("a{c}@{r}")).collect();
+            // keygen without witness + proof with this witness: does it verify?
+            let demo_result = if first_demo { demo(ci) } else { None };
+            first_demo = false;
             ctx.oracle_fail(
                 &format!("{}:{name}", if fixed_part_equal { "struct-advice" } else { "struct" }),
                 if fixed_part_equal {
@@ -756,9 +761,12 @@ pub fn check_family<C: Circuit<F>>(
                 },
                 json!({"circuit": name, "class": kn.class, "witness": kn.witness, "event": i, "keygen": a, "witness_run": b,
                        "fixed_part_equal": fixed_part_equal, "advice_cells_only_with_witness": only_w,
-                       "advice_cells_only_at_keygen": only_k}),
+                       "advice_cells_only_at_keygen": only_k,
+                       "keygen_without_witness_then_prove_with_witness": demo_result}),
             );
-            continue;
+            if !fixed_part_equal {
+                continue;
+            }
         }
         if ci < 4 || ctx.thorough() {
             if let Some(c) = cell_collision(&s.evs) {
@@ -932,6 +940,55 @@ fn derive_rows(s: &Synth) -> usize {
     m
 }
 
+fn prove_one(
+    params: &ParamsKZG<Bls12>,
+    rel: &OpRel,
+    vk: &midnight_zk_stdlib::MidnightVK,
+    pk: &midnight_zk_stdlib::MidnightPK<OpRel>,
+    pi: &Vec<F>,
+    committed: &[F],
+    w: &crate::ops::W,
+) -> Result<Result<(), String>, String> {
+    use midnight_zk_stdlib as zs;
+    catch(|| {
+        let proof = zs::prove::<OpRel, blake2b_simd::State>(params, pk, rel, pi, w.clone(), ChaCha8Rng::seed_from_u64(7))
+            .map_err(|e| format!("prove: {e:?}"))?;
+        let com = if committed.is_empty() {
+            None
+        } else {
+            Some(commit_to_instances::<F, Scheme>(params, vk.vk().get_domain(), committed).to_affine())
+        };
+        zs::verify::<OpRel, blake2b_simd::State>(&params.verifier_params(), vk, pi, com, &proof)
+            .map_err(|e| format!("verify: {e:?}"))
+    })
+}
+
+/// The demonstration attached to a structure violation: key from the relation alone, proof with
+/// the offending witness.
+fn demo_flow(rel: &OpRel, w: &crate::ops::W) -> Option<String> {
+    use midnight_zk_stdlib as zs;
+    let r = catch(|| {
+        let unk = MidnightCircuit::from_relation(rel);
+        let k = unk.min_k();
+        if k > 12 {
+            return "skipped (k > 12)".to_string();
+        }
+        let params = ParamsKZG::<Bls12>::unsafe_setup(k, ChaCha8Rng::seed_from_u64(k as u64 + 99));
+        let vk = zs::setup_vk(&params, rel);
+        let pk = zs::setup_pk(rel, &vk);
+        let circ = MidnightCircuit::new(rel, Value::known(vec![]), Value::known(w.clone()), Some(8));
+        let Ok(s) = synth(&circ, false, None) else { return "witness synthesis failed".to_string() };
+        let inst = derive_instance(&s);
+        let pi = inst.get(1).cloned().unwrap_or_default();
+        let committed = inst.first().cloned().unwrap_or_default();
+        match prove_one(&params, rel, &vk, &pk, &pi, &committed, w) {
+            Ok(Ok(())) => "proof VERIFIES".to_string(),
+            other => format!("proof REJECTED: {other:?}"),
+        }
+    });
+    Some(r.unwrap_or_else(|p| format!("panic: {p}")))
+}
+
 /// Real keys and proofs through the public `zk_stdlib` API: the key is generated from the
 /// relation alone (no witness), the proof with the witness; it must verify, and the number of
 /// public inputs recorded in the key must be the number the witness run binds.
@@ -971,24 +1028,7 @@ fn prove_flow(ctx: &mut Ctx, srs: &mut SrsCache, rel: &OpRel, name: &str, cls: &
             continue;
         }
         done += 1;
-        let res = catch(|| {
-            let proof = zs::prove::<OpRel, blake2b_simd::State>(
-                &params,
-                &pk,
-                rel,
-                &pi,
-                c.w.clone(),
-                ChaCha8Rng::seed_from_u64(7),
-            )
-            .map_err(|e| format!("prove: {e:?}"))?;
-            let com = if committed.is_empty() {
-                None
-            } else {
-                Some(commit_to_instances::<F, Scheme>(&params, vk.vk().get_domain(), &committed).to_affine())
-            };
-            zs::verify::<OpRel, blake2b_simd::State>(&params.verifier_params(), &vk, &pi, com, &proof)
-                .map_err(|e| format!("verify: {e:?}"))
-        });
+        let res = prove_one(&params, rel, &vk, &pk, &pi, &committed, &c.w);
         ctx.count("flow_proofs");
         match res {
             Ok(Ok(())) => ctx.count("flow_verified"),
@@ -1043,8 +1083,8 @@ const FLOW_QUICK: &[&str] = &[
 pub fn run(ctx: &mut Ctx) {
     let mut srs = SrsCache::new();
     let tier = ctx.tier.clone();
-    let nrand = if ctx.quick() { 2 } else { 6 };
-    let small_limit = if ctx.quick() { 400 } else { 1500 };
+    let nrand = if ctx.quick() { 2 } else if ctx.search() { 3 } else { 6 };
+    let small_limit = if ctx.quick() { 400 } else if ctx.search() { 0 } else { 1500 };
     let only = std::env::var("C09_ONLY").ok();
     for op in all_ops(&tier) {
         let name = op.name();
@@ -1068,14 +1108,15 @@ pub fn run(ctx: &mut Ctx) {
             })
             .collect();
         ctx.count(&format!("op:{}", name.split('(').next().unwrap()));
-        let _ = check_family(ctx, &mut srs, &name, &unknown, &knowns, small_limit);
+        let demo = |ci: usize| demo_flow(&rel, &cls[ci].w);
+        let _ = check_family(ctx, &mut srs, &name, &unknown, &knowns, small_limit, &demo);
         if let Op::FixedSeq(cs) = &op {
             cache_case(ctx, &name, cs, &unknown);
         }
         // real proofs
         let flow = if ctx.quick() { FLOW_QUICK.contains(&name.as_str()) } else { true };
         if flow {
-            let (nc, mk) = if ctx.quick() { (2, 10) } else { (3, 13) };
+            let (nc, mk) = if ctx.quick() { (2, 10) } else if ctx.search() { (2, 11) } else { (3, 13) };
             prove_flow(ctx, &mut srs, &rel, &name, &cls, nc, mk);
         }
     }
@@ -1107,7 +1148,7 @@ pub fn run(ctx: &mut Ctx) {
                 circuit: MidnightCircuit::new(&rel, Value::known(vec![]), Value::known(w.clone()), Some(8)),
             })
             .collect();
-        let _ = check_family(ctx, &mut srs, &name, &unknown, &knowns, small_limit);
+        let _ = check_family(ctx, &mut srs, &name, &unknown, &knowns, small_limit, &|_| None);
     }
     let hashes = VK_HASHES.with(|h| h.borrow().clone());
     ctx.set_extra("vk_hashes", json!(hashes));
